@@ -581,6 +581,14 @@ func ToEntry(n Node) (e *Entry) {
 	defer func() {
 		ms.setEntryCache(n, e)
 	}()
+	if n.Kind() == "module" {
+		// Which submodules have been merged is kept per module: two
+		// loaded revisions of a module may include the same submodule,
+		// and each gets its content.
+		saved := ms.mergedSubmodule
+		ms.mergedSubmodule = map[string]bool{}
+		defer func() { ms.mergedSubmodule = saved }()
+	}
 
 	// Copy in the extensions from our Node, if any.
 	defer func(n Node) {
@@ -828,6 +836,9 @@ func ToEntry(n Node) (e *Entry) {
 					}
 					ms.mergedSubmodule[srcToIncluded] = true
 					ms.mergedSubmodule[includedToParent] = true
+					// The submodule is converted anew, so that its own
+					// includes are accounted for in this module.
+					ms.dropEntryCache(a.Module)
 					e.merge(a.Module.Prefix, nil, ToEntry(a.Module))
 				case ms.ParseOptions.IgnoreSubmoduleCircularDependencies:
 					continue
